@@ -23,6 +23,7 @@ namespace vg
         bool allow_looped = true;
         bool overrides = true;
         size_t mesh_max_side = 6;
+        bool only_queen = false;  // raster: queen connectivity only (thread-sanitizer build)
     };
 
     inline double spacing_value(Src& s)
@@ -78,6 +79,8 @@ namespace vg
         {
             static const int conn[] = { va::C_QUEEN, va::C_ROOK, va::C_BISHOP };
             sp.connect = conn[s.weighted({ 110, 100, 46 })];
+            if (o.only_queen)
+                sp.connect = va::C_QUEEN;
             size_t lo = o.min_side, hi = o.max_side;
             auto side = [&]() -> size_t
             {
